@@ -184,7 +184,8 @@ def r_C23g_C24d(root):
                 raise AnalysisError("self-hosted metamodel built with **kwargs: options cannot be enumerated")
         ob("C24", "C24.d", MM, "TextXMetaMetaModel.metamodel", " ".join(ast.unparse(c).split())[:90], okc)
     lf = find(load(root, L), "language_from_str")
-    pp = [c for c in calls(lf) if callee_name(c) == "ParserPython"]
+    # the construction may sit in a helper of lang.py: every ParserPython(...) built over textx_model is the grammar parser
+    pp = [c for c in calls(load(root, L)) if callee_name(c) == "ParserPython" and c.args and ast.unparse(c.args[0]) == "textx_model"]
     if not pp: raise AnalysisError("grammar parser construction not found")
     for c in pp:
         inst += 1; okc = True
